@@ -73,7 +73,7 @@ proof! {
 		let r = pmmr::round_up_to_leaf_pos(p);
 		check!(r == if k == 0 { p } else { leaf_pos(n + 1) }, "round_up_to_leaf_pos");
 		cover!(k == 0, "leaf");
-		cover!(k == 40, "very high node");
+		cover!(k == 5, "node of height 5");
 	}
 }
 
